@@ -8,6 +8,8 @@ numbered operation.  An Injector then, in a forked child working on a copy of th
   crash(i)       os._exit() right before operation i           (what SIGKILL leaves behind)
   tear(i, k)     lets write i put only its first k bytes, then os._exit()
   fail(i, errno) makes operation i raise OSError(errno) and lets the code continue
+  short(i, k)    lets write i accept only its first k bytes and RETURN k (a legal answer of write(2):
+                 disk filling up, RLIMIT_FSIZE, a signal) - the code continues and must write the rest
 """
 
 import errno
@@ -43,6 +45,8 @@ class Injector:
             os._exit(77)
         if self.mode == "tear":
             return ("tear", self.arg)
+        if self.mode == "short":
+            return ("short", self.arg)
         if self.mode == "fail":
             raise OSError(self.arg, os.strerror(self.arg), str(path))
         return None
@@ -66,7 +70,9 @@ class TracedRaw(io.FileIO):
         act = self._inj.op("write", self._label, len(b))
         if act is not None:
             k = min(act[1], len(b))
-            super().write(bytes(b)[:k])
+            n = super().write(bytes(b)[:k])
+            if act[0] == "short":
+                return n
             os._exit(78)
         return super().write(b)
 
@@ -128,7 +134,18 @@ def make_shims(inj):
         fdnames[fd] = name
         return fd, name
 
-    os_shim = ShimModule(_real_os, fdopen=fdopen, replace=replace, rename=rename, remove=remove, unlink=unlink, chmod=chmod)
+    def write(fd, data):
+        # a raw os.write on a file the module created itself (mkstemp fd)
+        act = inj.op("write", fdnames.get(fd, f"fd{fd}"), len(data))
+        if act is not None:
+            k = min(act[1], len(data))
+            n = _real_os.write(fd, bytes(data)[:k])
+            if act[0] == "short":
+                return n
+            os._exit(78)
+        return _real_os.write(fd, data)
+
+    os_shim = ShimModule(_real_os, fdopen=fdopen, replace=replace, rename=rename, remove=remove, unlink=unlink, chmod=chmod, write=write)
     tempfile_shim = ShimModule(_tempfile, mkstemp=mkstemp)
     return open_shim, os_shim, tempfile_shim
 
@@ -156,6 +173,8 @@ def fault_cases(log, all_tears=False):
             ks = range(1, size) if all_tears else sorted({1, size // 2, size - 1})
             for k in ks:
                 cases.append(("tear", i, k))
+            for k in sorted({1, size // 2}):
+                cases.append(("short", i, k))
         for e in ERRNOS.get(kind, []):
             cases.append(("fail", i, e))
     cases.append(("crash", len(log), None))  # after the last operation (sanity: equals post state)
